@@ -165,12 +165,27 @@ fn real_lx<F: PrimeField>(st: &mut St<F>, e: &Lx) -> RV<F> {
                 .iter()
                 .map(|(v, c)| (v.map(|i| st.rh(i)).unwrap_or(Variable::One()), st.model.sc(c)))
                 .collect();
-            if *by_ref {
-                st.cov("FromIterator<&(Variable,F)>");
-                RV::Lc(v.iter().collect())
-            } else {
-                st.cov("FromIterator<(Variable,F)>");
-                RV::Lc(v.into_iter().collect())
+            // every third list goes through an iterator without an exact size hint
+            let lazy = v.len() % 3 == 2;
+            match (*by_ref, lazy) {
+                (true, false) => {
+                    st.cov("FromIterator<&(Variable,F)>");
+                    RV::Lc(v.iter().collect())
+                }
+                (true, true) => {
+                    st.cov("FromIterator<&(Variable,F)>");
+                    st.cov("FromIterator from a lazily sized iterator");
+                    RV::Lc(v.iter().filter(|_| true).collect())
+                }
+                (false, false) => {
+                    st.cov("FromIterator<(Variable,F)>");
+                    RV::Lc(v.into_iter().collect())
+                }
+                (false, true) => {
+                    st.cov("FromIterator<(Variable,F)>");
+                    st.cov("FromIterator from a lazily sized iterator");
+                    RV::Lc(v.chunks(1).flat_map(|c| c.iter().cloned()).collect())
+                }
             }
         }
         Lx::Neg(a) => match real_lx(st, a) {
